@@ -96,6 +96,42 @@ def check(fb, ctx):
         alg = [hirq.ctor_name(z) or (z.get("res", {}).get("path") if z.get("k") == "path" else None) for z in find_all(c["args"], lambda z: (z.get("k") == "path" and "Algorithm::" in (z["res"].get("path") or "")))]
         tags.append((t, [a.split("::")[-1] for a in alg if a]))
     ctx.check(sorted(tags) == sorted([(["ed25519/"], ["Ed25519"]), (["secp256r1/"], ["Secp256r1"])]), "ALGDISPATCH", "Datalog parser: ed25519/ -> Ed25519, secp256r1/ -> Secp256r1", "ALGDISPATCH|parser", f"found {tags}", "biscuit-parser/src/parser.rs")
+    # ---- REMAINDER: a string conversion built on a grammar parser accepts the WHOLE string: either the parser it calls ends with
+    # `eof` (fact, rule, check, policy do) or the conversion looks at the unparsed remainder. `ed25519/<hex>anything` is not a key.
+    eof_parsers = set()
+    for key_, h_ in fb.hir.items():
+        if h_.get("crate") == "biscuit_parser" and h_["path"].startswith("biscuit_parser::parser::"):
+            if find_all(h_["body"], lambda z: z.get("k") == "path" and re.search(r"combinator::(eof|all_consuming)$", z.get("res", {}).get("path") or "")):
+                eof_parsers.add(h_["path"])
+    n_conv = 0
+    for key_, h_ in fb.hir.items():
+        if h_.get("crate") != "biscuit_auth" or "/tests" in h_.get("file", "") or h_["file"].endswith("src/parser.rs"):
+            continue
+        for c in find_all(h_["body"], lambda z: z.get("k") == "call" and (z.get("f", {}).get("res", {}).get("path") or "").startswith("biscuit_parser::parser::")):
+            callee = c["f"]["res"]["path"]
+            if callee.split("::")[-1] in ("parse_source", "parse_block_source"):
+                continue          # whole-source parsers loop until the input is empty and report leftovers as errors
+            n_conv += 1
+            if callee in eof_parsers:
+                ctx.ok("REMAINDER", f"{h_['path'].split('::')[-3] if ' as ' in h_['path'] else h_['path'].split('::')[-2]}: {callee.split('::')[-1]} consumes the whole input", f"{h_['file']}:{c['ln']}", "the parser ends with eof")
+                continue
+            # the (rest, value) pair: is the first component bound and used?
+            pats = [p for p in find_all(h_["body"], lambda z: z.get("k") in ("let", "letexpr", "closure")) ]
+            rest_ids = set()
+            for l_ in find_all(h_["body"], lambda z: z.get("k") == "let" and z.get("init") is not None and find_all(z["init"], lambda y: y is c)):
+                p_ = l_["pat"]
+                if p_.get("k") == "tuple" and p_["pats"] and p_["pats"][0].get("k") == "bind":
+                    rest_ids.add(p_["pats"][0]["id"])
+            used = bool(rest_ids) and bool(find_all(h_["body"], lambda z: hirq.is_lid(z, rest_ids)))
+            ctx.check(used, "REMAINDER", f"{h_['path']}: the input left over by {callee.split('::')[-1]} is examined", f"REMAINDER|{h_['path']}|{callee.split('::')[-1]}", f"`{callee.split('::')[-1]}` stops at the first character it does not understand and the conversion discards the rest: a well-formed value followed by arbitrary text is accepted", f"{h_['file']}:{c['ln']}")
+    ctx.floor("string conversions built on grammar parsers", n_conv, 9)
+    # ---- HEXRUN: hex key material is decoded from the maximal run of hex digits, by a decoder that refuses an odd number of digits
+    ph = fb.hir_of("biscuit_parser::parser::parse_hex")
+    refs = {(z["res"].get("path") or "").split("::")[-1] for z in find_all(ph["body"], lambda z: z.get("k") == "path" and z.get("res", {}).get("path"))} | {(z.get("f", {}).get("res", {}).get("path") or "").split("::")[-1] for z in find_all(ph["body"], lambda z: z.get("k") == "call")}
+    full_path = {(z["res"].get("path") or "") for z in find_all(ph["body"], lambda z: z.get("k") == "path" and z.get("res", {}).get("path"))} | {(z.get("f", {}).get("res", {}).get("path") or "") for z in find_all(ph["body"], lambda z: z.get("k") == "call")}
+    whole_run = bool(refs & {"take_while1", "take_while", "hex_digit1", "hex_digit0"})
+    chunked = bool(refs & {"take_while_m_n", "take", "many1", "many0", "count", "fold_many1", "fold_many0"})
+    ctx.check(whole_run and not chunked and any(p_.endswith("hex::decode") for p_ in full_path), "HEXRUN", "parse_hex decodes the whole run of hex digits with hex::decode", "HEXRUN|parse_hex", f"combinators used: {sorted(refs & {'take_while1', 'take_while', 'hex_digit1', 'take_while_m_n', 'take', 'many1', 'many0', 'count', 'decode', 'from_str_radix'})}: a digit-pair-wise decoder stops before a dangling last digit instead of refusing it (`ed25519/abc` parses as key `ab` followed by `c`)", f"{ph['file']}:{ph['line']}")
     # ---- UNKNOWNALG
     for fn in (C + "::PublicKey::from_proto",):
         b = fb.body(fn)
